@@ -1,5 +1,5 @@
 /-
-Helper lemmas for C18 / C20 / C21: the association-list store, the invariant `Inv`
+Helper lemmas for C18 / C20 / C21: the association-list store, the invariant `TreeInv`
 and its preservation by every building block of the model.
 -/
 import SwV.Model.C18
@@ -132,7 +132,7 @@ theorem recFile_foldl_deleteHardLink (hs : List Nat) {s : St} (h : ∀ x ∈ s.k
 
 /-- the store is a map; it is parent-closed (every stored path is below the root and its parent is the root or a
     stored directory); directories carry no link id; link records are files -/
-structure Inv (s : St) : Prop where
+structure TreeInv (s : St) : Prop where
   nodup : (s.ents.map (·.1)).Nodup
   parent : ∀ x ∈ s.ents, x.1 ≠ [] ∧ (x.1.tail = [] ∨ ∃ d, (x.1.tail, d) ∈ s.ents ∧ d.isDir = true)
   dirNoLink : ∀ x ∈ s.ents, x.2.isDir = true → x.2.hl = 0
@@ -152,7 +152,7 @@ theorem tail_ne_self {p : RPath} (hp : p ≠ []) : p.tail ≠ p := by
   | nil => exact hp rfl
   | cons a t => simp at this
 
-theorem find_stored {s : St} (inv : Inv s) {p : RPath} {e : Entry} (h : find s p = some e) :
+theorem find_stored {s : St} (inv : TreeInv s) {p : RPath} {e : Entry} (h : find s p = some e) :
     ∃ e0, (p, e0) ∈ s.ents ∧ e0.isDir = e.isDir := by
   unfold find at h
   split at h
@@ -172,7 +172,7 @@ theorem find_stored {s : St} (inv : Inv s) {p : RPath} {e : Entry} (h : find s p
         exact ⟨e0, hm, by rw [hf, inv.recFile _ (kvGet_some_mem hr)]⟩
       · cases h; exact ⟨_, hm, rfl⟩
 
-theorem find_none {s : St} (inv : Inv s) {p : RPath} (h : find s p = none) : ∀ e, (p, e) ∉ s.ents := by
+theorem find_none {s : St} (inv : TreeInv s) {p : RPath} (h : find s p = none) : ∀ e, (p, e) ∉ s.ents := by
   intro e he
   have := lookup_of_mem_nodup inv.nodup he
   unfold find at h
@@ -215,9 +215,9 @@ theorem mem_wInsert {s : St} {p : RPath} {e : Entry} {x : RPath × Entry} :
     x ∈ (wInsert s p e).ents ↔ x = (p, e) ∨ (x ∈ s.ents ∧ x.1 ≠ p) := by
   simp [wInsert, mem_put]
 
-theorem inv_wInsert {s : St} {p : RPath} {e : Entry} (inv : Inv s) (he : e.isDir = true → e.hl = 0) (hp : p ≠ [])
+theorem inv_wInsert {s : St} {p : RPath} {e : Entry} (inv : TreeInv s) (he : e.isDir = true → e.hl = 0) (hp : p ≠ [])
     (hpar : p.tail = [] ∨ ∃ d, (p.tail, d) ∈ s.ents ∧ d.isDir = true)
-    (hty : ∀ e0, (p, e0) ∈ s.ents → e0.isDir = e.isDir) : Inv (wInsert s p e) := by
+    (hty : ∀ e0, (p, e0) ∈ s.ents → e0.isDir = e.isDir) : TreeInv (wInsert s p e) := by
   refine ⟨?_, ?_, ?_, ?_⟩
   · simp only [wInsert, handleUpdate_ents]
     exact nodup_put inv.nodup
@@ -242,8 +242,8 @@ theorem inv_wInsert {s : St} {p : RPath} {e : Entry} (inv : Inv s) (he : e.isDir
   · simp only [wInsert]
     exact recFile_handleUpdate p inv.recFile he
 
-theorem inv_ensureParent (e : Entry) (q : RPath) : ∀ s, Inv s →
-    Inv (ensureParent e q s).1
+theorem inv_ensureParent (e : Entry) (q : RPath) : ∀ s, TreeInv s →
+    TreeInv (ensureParent e q s).1
     ∧ ((ensureParent e q s).2 = true → q = [] ∨ ∃ d, (q, d) ∈ (ensureParent e q s).1.ents ∧ d.isDir = true)
     ∧ (∀ x : RPath × Entry, x.1.length > q.length → (x ∈ (ensureParent e q s).1.ents ↔ x ∈ s.ents)) := by
   induction q with
@@ -290,8 +290,8 @@ theorem inv_ensureParent (e : Entry) (q : RPath) : ∀ s, Inv s →
             rw [hc] at hx
             simp at hx
 
-theorem inv_createEntry {s : St} {p : RPath} {e : Entry} {x : Bool} (inv : Inv s) (he : e.isDir = true → e.hl = 0) :
-    Inv (createEntry s p e x).1 := by
+theorem inv_createEntry {s : St} {p : RPath} {e : Entry} {x : Bool} (inv : TreeInv s) (he : e.isDir = true → e.hl = 0) :
+    TreeInv (createEntry s p e x).1 := by
   unfold createEntry
   split
   · exact inv
@@ -322,8 +322,8 @@ theorem inv_createEntry {s : St} {p : RPath} {e : Entry} {x : Bool} (inv : Inv s
             rw [mem_unique inv.nodup h1 hm, hk]
             simpa using hty
 
-theorem inv_updateEntry {s : St} {p : RPath} {e : Entry} (inv : Inv s) (he : e.isDir = true → e.hl = 0) :
-    Inv (updateEntry s p e).1 := by
+theorem inv_updateEntry {s : St} {p : RPath} {e : Entry} (inv : TreeInv s) (he : e.isDir = true → e.hl = 0) :
+    TreeInv (updateEntry s p e).1 := by
   unfold updateEntry
   split
   · exact inv
@@ -391,13 +391,13 @@ theorem foldl_batch_none (rec : St → RPath → Option Batch) (d : RPath) (subs
 
 /-- what a (sub-)batch guarantees -/
 def BatchOk (s : St) (d : RPath) (r : Batch) : Prop :=
-  Inv r.1 ∧ r.1.ents.Sublist s.ents ∧ r.1.kv = s.kv ∧ ∀ x ∈ r.1.ents, x.1.tail ≠ d
+  TreeInv r.1 ∧ r.1.ents.Sublist s.ents ∧ r.1.kv = s.kv ∧ ∀ x ∈ r.1.ents, x.1.tail ≠ d
 
 theorem batch_loop (rec : St → RPath → Option Batch) (d : RPath)
-    (hrec : ∀ s d r, Inv s → rec s d = some r → BatchOk s d r) :
-    ∀ (subs : List (String × Entry)) (acc r : Batch), Inv acc.1 →
+    (hrec : ∀ s d r, TreeInv s → rec s d = some r → BatchOk s d r) :
+    ∀ (subs : List (String × Entry)) (acc r : Batch), TreeInv acc.1 →
       subs.foldl (batchStep rec d) (some acc) = some r →
-      Inv r.1 ∧ r.1.ents.Sublist acc.1.ents ∧ r.1.kv = acc.1.kv ∧
+      TreeInv r.1 ∧ r.1.ents.Sublist acc.1.ents ∧ r.1.kv = acc.1.kv ∧
       (∀ sub ∈ subs, sub.2.isDir = true → ∀ x ∈ r.1.ents, x.1.tail ≠ sub.1 :: d) := by
   intro subs
   induction subs with
@@ -439,7 +439,7 @@ theorem batch_loop (rec : St → RPath → Option Batch) (d : RPath)
       · exact absurd hd' hd
       · exact IH.2.2.2 sub' hsub' hd' x hx
 
-theorem batchOk_doBatch (f : Nat) : ∀ (s : St) (d : RPath) (r : Batch), Inv s → doBatch f s d = some r → BatchOk s d r := by
+theorem batchOk_doBatch (f : Nat) : ∀ (s : St) (d : RPath) (r : Batch), TreeInv s → doBatch f s d = some r → BatchOk s d r := by
   induction f with
   | zero => intro s d r _ h; simp [doBatch] at h
   | succ f ih =>
@@ -482,12 +482,12 @@ theorem batchOk_doBatch (f : Nat) : ∀ (s : St) (d : RPath) (r : Batch), Inv s 
         · exact absurd h1 (L.1.parent x hx').1
         · exact h1
 
-theorem inv_of_ents_eq {s s' : St} (inv : Inv s) (he : s'.ents = s.ents) (hk : ∀ x ∈ s'.kv, x.2.isDir = false) : Inv s' :=
+theorem inv_of_ents_eq {s s' : St} (inv : TreeInv s) (he : s'.ents = s.ents) (hk : ∀ x ∈ s'.kv, x.2.isDir = false) : TreeInv s' :=
   ⟨he ▸ inv.nodup, he ▸ inv.parent, he ▸ inv.dirNoLink, hk⟩
 
-theorem inv_deleteOne {s : St} {p : RPath} {e : Entry} (inv : Inv s) (hk : ∀ x ∈ s.ents, x.1.tail ≠ p) :
-    Inv (deleteOne s p e) := by
-  have inv1 : Inv (if e.hl ≠ 0 then deleteHardLink s e.hl else s) := by
+theorem inv_deleteOne {s : St} {p : RPath} {e : Entry} (inv : TreeInv s) (hk : ∀ x ∈ s.ents, x.1.tail ≠ p) :
+    TreeInv (deleteOne s p e) := by
+  have inv1 : TreeInv (if e.hl ≠ 0 then deleteHardLink s e.hl else s) := by
     split
     · exact inv_of_ents_eq inv (by simp) (recFile_deleteHardLink inv.recFile)
     · exact inv
@@ -508,7 +508,7 @@ theorem inv_deleteOne {s : St} {p : RPath} {e : Entry} (inv : Inv s) (hk : ∀ x
     intro x hx
     exact inv.dirNoLink x (mem_erase.mp hx).1
 
-theorem inv_deleteEntry {s : St} {p : RPath} {recursive dc : Bool} (inv : Inv s) : Inv (deleteEntry s p recursive dc).1 := by
+theorem inv_deleteEntry {s : St} {p : RPath} {recursive dc : Bool} (inv : TreeInv s) : TreeInv (deleteEntry s p recursive dc).1 := by
   unfold deleteEntry
   split
   · exact inv
@@ -521,7 +521,7 @@ theorem inv_deleteEntry {s : St} {p : RPath} {recursive dc : Bool} (inv : Inv s)
       split
       · exact inv
       · rename_i s1 dcs hs hr
-        have key : Inv s1 ∧ ∀ x ∈ s1.ents, x.1.tail ≠ n :: par := by
+        have key : TreeInv s1 ∧ ∀ x ∈ s1.ents, x.1.tail ≠ n :: par := by
           by_cases hd : e.isDir = true
           · simp only [hd, if_true] at hr
             split at hr
@@ -546,9 +546,9 @@ theorem inv_deleteEntry {s : St} {p : RPath} {recursive dc : Bool} (inv : Inv s)
 /-! ### rename, operations, runs -/
 
 theorem inv_move_loop (rec : St → RPath → Entry → RPath → Mv) (old new : RPath)
-    (ih : ∀ s o e n, Inv s → Inv (rec s o e n).1) :
-    ∀ (items : List (String × Entry)) (acc : Mv), Inv acc.1 →
-      Inv (items.foldl (moveStep rec old new) acc).1 := by
+    (ih : ∀ s o e n, TreeInv s → TreeInv (rec s o e n).1) :
+    ∀ (items : List (String × Entry)) (acc : Mv), TreeInv acc.1 →
+      TreeInv (items.foldl (moveStep rec old new) acc).1 := by
   intro items
   induction items with
   | nil => intro acc h; exact h
@@ -559,7 +559,7 @@ theorem inv_move_loop (rec : St → RPath → Entry → RPath → Mv) (old new :
     rcases acc with ⟨sa, ra, qa⟩
     cases ra <;> first | exact h | (simp only [moveStep]; exact ih _ _ _ _ h)
 
-theorem inv_moveEntry (f : Nat) : ∀ s old e new, Inv s → Inv (moveEntry f s old e new).1 := by
+theorem inv_moveEntry (f : Nat) : ∀ s old e new, TreeInv s → TreeInv (moveEntry f s old e new).1 := by
   induction f with
   | zero => intro s old e new inv; exact inv
   | succ f ih =>
@@ -572,7 +572,7 @@ theorem inv_moveEntry (f : Nat) : ∀ s old e new, Inv s → Inv (moveEntry f s 
       · rename_i s1 q1 hcr
         rw [hcr] at hc
         simp only at hc
-        have hsub : Inv (if e.isDir = true then
+        have hsub : TreeInv (if e.isDir = true then
             (children s1 old).foldl (moveStep (moveEntry f) old new) (s1, Res.ok, []) else (s1, Res.ok, [])).1 := by
           split
           · exact inv_move_loop _ old new ih _ (s1, Res.ok, []) hc
@@ -597,7 +597,7 @@ def OpOk : Op → Prop
   | .update _ e => e.isDir = true → e.hl = 0
   | _ => True
 
-theorem inv_step {s : St} {op : Op} (inv : Inv s) (ok : OpOk op) : Inv (step s op).1 := by
+theorem inv_step {s : St} {op : Op} (inv : TreeInv s) (ok : OpOk op) : TreeInv (step s op).1 := by
   cases op with
   | create p e x =>
     simp only [step]
@@ -611,7 +611,7 @@ theorem inv_step {s : St} {op : Op} (inv : Inv s) (ok : OpOk op) : Inv (step s o
     split <;> simp
   | link src dst hl =>
     simp only [step]
-    have : Inv (linkOp s src dst hl).1 := by
+    have : TreeInv (linkOp s src dst hl).1 := by
       unfold linkOp
       split
       · exact inv
@@ -625,7 +625,7 @@ theorem inv_step {s : St} {op : Op} (inv : Inv s) (ok : OpOk op) : Inv (step s o
             | true => simp [hd] at hc
           have hl1 : (linked o hl).isDir = false := by unfold linked; split <;> simpa using hfile
           rcases find_stored inv ho with ⟨e0, hm, hk⟩
-          have h1 : Inv (wInsert s src (linked o hl)) := by
+          have h1 : TreeInv (wInsert s src (linked o hl)) := by
             refine inv_wInsert inv (by simp [hl1]) (inv.parent _ hm).1 (inv.parent _ hm).2 ?_
             intro e1 h1
             rw [mem_unique inv.nodup h1 hm, hk, hl1, hfile]
@@ -647,9 +647,9 @@ theorem inv_step {s : St} {op : Op} (inv : Inv s) (ok : OpOk op) : Inv (step s o
     · exact inv
     · exact inv_moveEntry _ _ _ _ _ inv
 
-theorem inv_empty : Inv {} := ⟨by simp, by simp, by simp, by simp⟩
+theorem inv_empty : TreeInv {} := ⟨by simp, by simp, by simp, by simp⟩
 
-theorem inv_run (ops : List Op) : ∀ s, Inv s → (∀ op ∈ ops, OpOk op) → Inv (run s ops) := by
+theorem inv_run (ops : List Op) : ∀ s, TreeInv s → (∀ op ∈ ops, OpOk op) → TreeInv (run s ops) := by
   induction ops with
   | nil => intro s inv _; exact inv
   | cons op t ih =>
@@ -659,7 +659,7 @@ theorem inv_run (ops : List Op) : ∀ s, Inv s → (∀ op ∈ ops, OpOk op) →
 
 /-! ### consequences of the invariant -/
 
-theorem ancestors_of_inv {s : St} (inv : Inv s) : ∀ (p : RPath) (e : Entry), (p, e) ∈ s.ents →
+theorem ancestors_of_inv {s : St} (inv : TreeInv s) : ∀ (p : RPath) (e : Entry), (p, e) ∈ s.ents →
     ∀ q : RPath, q ≠ [] → q <:+ p → q ≠ p → ∃ d, (q, d) ∈ s.ents ∧ d.isDir = true := by
   intro p
   induction p with
@@ -679,7 +679,7 @@ theorem ancestors_of_inv {s : St} (inv : Inv s) : ∀ (p : RPath) (e : Entry), (
         · subst hqt; exact ⟨d, hd, hdir⟩
         · exact ih d hd q hq h hqt
 
-theorem mem_ensureParent (e : Entry) (q : RPath) : ∀ (s : St), Inv s → ∀ x, x ∈ (ensureParent e q s).1.ents →
+theorem mem_ensureParent (e : Entry) (q : RPath) : ∀ (s : St), TreeInv s → ∀ x, x ∈ (ensureParent e q s).1.ents →
     x ∈ s.ents ∨ (x.2.isDir = true ∧ ∀ y, (x.1, y) ∉ s.ents) := by
   induction q with
   | nil => intro s _ x hx; exact Or.inl hx
@@ -700,7 +700,7 @@ theorem mem_ensureParent (e : Entry) (q : RPath) : ∀ (s : St), Inv s → ∀ x
         · exact Or.inr ⟨rfl, find_none inv hnone⟩
         · exact IH x hx'
 
-theorem createEntry_type_stable {s : St} {p : RPath} {e : Entry} {x : Bool} (inv : Inv s) {q : RPath} {a b : Entry}
+theorem createEntry_type_stable {s : St} {p : RPath} {e : Entry} {x : Bool} (inv : TreeInv s) {q : RPath} {a b : Entry}
     (ha : (q, a) ∈ s.ents) (hb : (q, b) ∈ (createEntry s p e x).1.ents) : a.isDir = b.isDir := by
   unfold createEntry at hb
   split at hb
@@ -739,7 +739,7 @@ theorem createEntry_type_stable {s : St} {p : RPath} {e : Entry} {x : Bool} (inv
             simpa using hty
           · rw [mem_unique inv.nodup ha h]
 
-theorem updateEntry_type_stable {s : St} {p : RPath} {e : Entry} (inv : Inv s) {q : RPath} {a b : Entry}
+theorem updateEntry_type_stable {s : St} {p : RPath} {e : Entry} (inv : TreeInv s) {q : RPath} {a b : Entry}
     (ha : (q, a) ∈ s.ents) (hb : (q, b) ∈ (updateEntry s p e).1.ents) : a.isDir = b.isDir := by
   unfold updateEntry at hb
   split at hb
@@ -755,7 +755,7 @@ theorem updateEntry_type_stable {s : St} {p : RPath} {e : Entry} (inv : Inv s) {
         simpa using hty
       · rw [mem_unique inv.nodup ha h]
 
-theorem deleteEntry_subset {s : St} {p : RPath} {recursive dc : Bool} (inv : Inv s) :
+theorem deleteEntry_subset {s : St} {p : RPath} {recursive dc : Bool} (inv : TreeInv s) :
     ∀ x ∈ (deleteEntry s p recursive dc).1.ents, x ∈ s.ents := by
   unfold deleteEntry
   split
